@@ -64,3 +64,15 @@ package contracts
 //@   ensures result == d
 //@ trusted func (Duration).Seconds
 //@   modifies nothing
+
+//@ package golang.org/x/time/rate
+
+// Ghost view of the token-bucket limiter: the limiter most recently waited on and what Wait
+// returned. Assumed (never verified): the library's guarantee that at most burst + T*limit
+// calls of Wait on one limiter return nil within any window of length T.
+//@ ghost lastWaitLimiter *Limiter
+//@ ghost lastLimiterErr error
+//@ trusted func (*Limiter).Wait
+//@   modifies lastWaitLimiter, lastLimiterErr
+//@   ghostset lastWaitLimiter := lim
+//@   ghostset lastLimiterErr := result
